@@ -308,6 +308,12 @@ class CallMixin:
     def b_max(self, e, env, k):
         return self.minmax("max2", e, env, k)
 
+    def b_isgenerator(self, e, env, k):
+        # typed domain: the translated function is given a list (specs), never a generator object
+        self.args_no_kw(e, 1)
+        return self.expr(e.args[0], env, lambda c, t: k("false", BOOL) if isinstance(resolve(t), (TList, TRange, TTuple))
+                         else self.unsup("isgenerator on " + resolve(t).lean()))
+
     def b_isinstance(self, e, env, k):
         return self.boolval(e, env, k)
 
